@@ -14,7 +14,7 @@ RULE = ('(map) random SelectorMap histories (insert/overwrite/pop/copy-then-dive
         'is read through another; ambiguous/unknown spellings; two finalize hooks returning one parameter under two spellings. '
         'distinct = (kind, op-kind sequence shape, name-set suffix structure) / (write api, read api, spelling pair class)')
 TIERS = {
-    'quick': {'workers': 8, 'cases': 500, 'timeout': 600, 'exhaustive': False},
+    'quick': {'workers': 8, 'cases': 2000, 'timeout': 600, 'exhaustive': False},
     'thorough': {'workers': 16, 'cases': 6000, 'timeout': 3000, 'exhaustive': True},
 }
 REQUIRED_BUCKETS = ['map:insert', 'map:overwrite', 'map:pop', 'map:copy', 'map:clear', 'map:invalid-insert',
